@@ -654,6 +654,14 @@ func init() {
 	}
 	symPred := func(op string, nat func(a, b string) bool, swap bool) intrinsicFn {
 		return func(fr *frame, a []value) value {
+			a = []value{strOf(a[0]).norm(), strOf(a[1]).norm()}
+			if r, ok := a[0].(symStr); ok {
+				if lit, ok := a[1].(string); ok {
+					if v, ok := ropePredLit(op, r, lit); ok {
+						return v
+					}
+				}
+			}
 			if anySym(a[0], a[1]) {
 				x, y := strTerm(a[0]), strTerm(a[1])
 				if swap {
@@ -922,3 +930,37 @@ func insertionSort(n int, less func(i, j int) bool, swap func(i, j int)) {
 }
 
 var _ = sort.Strings
+
+// ropePredLit decides prefix/suffix/contains of a rope against a literal structurally when that is
+// sound: all atoms are integer atoms (they render as digits, possibly with a leading '-') and the
+// literal contains no digit or '-' (contains), or the rope's first/last literal part is long enough.
+func ropePredLit(op string, r symStr, lit string) (value, bool) {
+	for _, p := range r.parts {
+		if p.atom != nil && !p.atom.isInt {
+			return nil, false
+		}
+	}
+	switch op {
+	case "str.contains":
+		for i := 0; i < len(lit); i++ {
+			if isDigitByte(lit[i]) {
+				return nil, false
+			}
+		}
+		for _, p := range r.parts {
+			if p.atom == nil && strings.Contains(p.lit, lit) {
+				return true, true
+			}
+		}
+		return false, true
+	case "str.prefixof":
+		if p := r.parts[0]; p.atom == nil && len(p.lit) >= len(lit) {
+			return strings.HasPrefix(p.lit, lit), true
+		}
+	case "str.suffixof":
+		if p := r.parts[len(r.parts)-1]; p.atom == nil && len(p.lit) >= len(lit) {
+			return strings.HasSuffix(p.lit, lit), true
+		}
+	}
+	return nil, false
+}
